@@ -42,7 +42,10 @@ RULE_ADDED = (
               '; hashes with zero bytes at an end. '
               ' '
               'Round 11: message -o runs over files that already hold signatures (same version,'
-              ' other iteration, other image). ')
+              ' other iteration, other image). '
+              ' '
+              'Round 12: authorization files with 11, 12 and 16 signatures (thresholds up to th'
+              'e last one). ')
 RULE = RULE + " " + RULE_ADDED.strip()
 ASSUMPTIONS = [
     "own Keccak-256 (pv/oracle/hashes.py) and OpenSSL verification are the oracles",
@@ -193,7 +196,7 @@ def run_case(acc, cseed, tmpdir):
     # the unsigned authorization (what `message -o` leaves): the device can never
     # authorize it, so the command must fail
     device_dialogues(acc, rng, out, app_hash, it, bad, do_authorize_signer)
-    nsig = rng.choice([0, 1, 2, 3, 5, 10])
+    nsig = rng.choice([0, 1, 2, 3, 5, 10, 11, 12, 16])
     keys = []
     # another image / iteration, named on the command line of some `key` runs although
     # the output file already exists and names (app_hash, it)
